@@ -329,6 +329,58 @@ func runR164(c *Ctx) {
 		} else {
 			c.Pass(name, "offset-bookkeeping", c.Pos(op.Pos()), "the tracked offset advances by exactly what is handed out, before it is handed out or used to resume")
 		}
+		// the constructor starts the offset at the position the stream was opened at
+		nCtor := 0
+		for _, ctor := range c.pkgFuncs(bufferRel) {
+			if ctor.Signature.Recv() != nil {
+				continue
+			}
+			var lit *ssa.Alloc
+			allInstrs(ctor, func(ins ssa.Instruction) {
+				if al, ok := ins.(*ssa.Alloc); ok {
+					if p, ok := al.Type().(*types.Pointer); ok && types.Identical(p.Elem(), n) {
+						lit = al
+					}
+				}
+			})
+			if lit == nil {
+				continue
+			}
+			nCtor++
+			var openedAt, startOff ssa.Value
+			hasOpen := false
+			allInstrs(ctor, func(ins ssa.Instruction) {
+				st, ok := ins.(*ssa.Store)
+				if !ok {
+					return
+				}
+				fa, ok := st.Addr.(*ssa.FieldAddr)
+				if !ok || fa.X != ssa.Value(lit) {
+					return
+				}
+				if fieldOf(fa).Name() == offName {
+					startOff = st.Val
+				}
+				if cl, ok := stripConv(st.Val).(*ssa.Call); ok && cl.Call.IsInvoke() && (cl.Call.Method.Name() == "toUnvalidatedReader" || cl.Call.Method.Name() == "toUnvalidatedChunkReader") {
+					hasOpen = true
+					openedAt = cl.Call.Args[0]
+				}
+			})
+			if !hasOpen {
+				c.Fail(FuncName(ctor), "initial-offset", c.Pos(ctor.Pos()), "the constructor does not open the underlying stream with toUnvalidated*Reader")
+				continue
+			}
+			okInit := startOff != nil && sameSource(stripConv(startOff), stripConv(openedAt))
+			if startOff == nil {
+				if k, isC := constInt(stripConv(openedAt)); isC && k == 0 {
+					okInit = true // zero value of the field
+				}
+			}
+			c.Check(okInit, FuncName(ctor), "initial-offset", c.Pos(ctor.Pos()), "the tracked offset starts at the offset the stream was opened at", "the tracked offset ("+offName+") is not initialised with the offset at which the constructor opens the underlying stream: after a failure the replacement resumes at the number of bytes delivered instead of start offset + bytes delivered, so a range is delivered twice")
+		}
+		if nCtor == 0 {
+			c.Fail(name, "initial-offset", c.Pos(fn.Pos()), "no constructor of "+typ+" found")
+		}
 		// nobody else writes off
 		for _, fs := range fieldStoresIn(c.pkgFuncs(bufferRel), n, offName) {
 			okW := fs.fn == fn || fs.fn.Signature.Recv() == nil
